@@ -934,3 +934,12 @@ class Summaries:
         if t is None:
             return None
         return self.return_set(t)
+
+
+def guard_delta(mf, ref, site):
+    """branch facts (tree, pol) that hold at `site` (block,idx) but not at `ref` (block,idx): the guards
+    acquired between the two points."""
+    rb, ri = ref
+    sb, si = site
+    base = {fk for fk in mf.facts_at(rb, ri)}
+    return [(mf.trees[fk], fk[1]) for fk in mf.facts_at(sb, si) if fk in mf.trees and fk not in base]
